@@ -217,9 +217,9 @@ int main(int argc, char** argv) {
     const int32_t U = SDCompact::unknownCount;
     const std::vector<int32_t> S6 = { -1, 0, 1, 2, 3, U }, S5 = { -1, 0, 1, 2, U }, S4 = { 0, 1, 2, U }, S3 = { 0, 1, 2 };
     std::vector<Shape> shapes;
-    if (opt.thorough()) shapes = { { 3, 3, S6 }, { 2, 4, S6 }, { 2, 5, S4 }, { 1, 7, S6 } };
+    if (opt.thorough()) shapes = { { 3, 3, S5 }, { 2, 4, S6 }, { 2, 5, S4 }, { 1, 7, S6 } };   // 3x3 over all six symbols (1.15e9 tables x 66 types) does not fit the budget
     else shapes = { { 3, 2, S6 }, { 2, 3, S6 }, { 3, 3, S4 }, { 1, 5, S6 } };
-    (void)S5; (void)S3;
+    (void)S3;
     const size_t mcap = static_cast<size_t>(opt.num("mutcap", opt.thorough() ? 1024 : 128));
     const size_t mcells = static_cast<size_t>(opt.num("mutcells", opt.thorough() ? 96 : 40));
     const std::string part = opt.str("part", "all");
